@@ -415,6 +415,13 @@ def oracle(case):
     f0 = _f_at(case, x0)
     scale = abs(f0) + 1.0
     res = {}
+    if not math.isfinite(f0):
+        # the start itself is in the NaN region of the objective: both Newton-CG variants must refuse it alike
+        # ("energy is NaN"); nothing is claimed about the trust-region minimiser (it reports status 2 / a NaN value)
+        re_, rs_ = _run_real(case, "eager", None, pinned), _run_real(case, "static", None, pinned)
+        if ("error" in re_) != ("error" in rs_):
+            return ("eager and compiled Newton-CG disagree on a NaN start", _sig("eager_static_disagree", what="nan_start"))
+        return None
     for variant in ("eager", "static") + (("trust",) if case.get("trust", True) and not case.get("cgfake") else ()):
         o = _run_trust_recorded(case)[0] if variant == "trust" else _run_real(case, variant, None, pinned)
         res[variant] = o
